@@ -1239,6 +1239,50 @@ pub fn drive_streams(a: &Args, w: &Words, thorough: bool) {
             skipped.push("regular".into());
         }
     }
+    // a reader that delivers n zero bytes (never materialised) in reads of at most `mr`, then end of
+    // file or an error: sizes beyond 2^32 through the reader loop, against the closed-form state
+    {
+        struct Zeros {
+            left: u64,
+            mr: usize,
+            fail: bool,
+            ended: bool,
+            reads_after_end: u64,
+        }
+        impl std::io::Read for Zeros {
+            fn read(&mut self, buf: &mut [u8]) -> std::io::Result<usize> {
+                if self.ended {
+                    self.reads_after_end += 1;
+                }
+                if self.left == 0 {
+                    self.ended = true;
+                    return if self.fail { Err(std::io::Error::new(std::io::ErrorKind::Other, "id=77")) } else { Ok(0) };
+                }
+                let k = (buf.len().min(self.mr) as u64).min(self.left) as usize;
+                buf[..k].fill(0);
+                self.left -= k as u64;
+                Ok(k)
+            }
+        }
+        let runs: Vec<(u64, usize, bool)> = if thorough {
+            vec![((1 << 32) + 64, 1 << 20, false), ((1 << 33) + 7, 32768, false), ((1 << 32) + 64, 30000, true), (70_000, 1, false)]
+        } else {
+            vec![((1 << 32) + 64, 1 << 20, false), (100_000, 999, true), (70_000, 1, false)]
+        };
+        for (n, mr, fail) in runs {
+            rec.begin();
+            let mut rd = Zeros { left: n, mr, fail, ended: false, reads_after_end: 0 };
+            let r = catch_unwind(AssertUnwindSafe(|| ssdeep::hash_stream(&mut rd)));
+            rec.sh.emit(&format!(
+                "{{\"ev\":\"streamzeros\",\"n\":{},\"mr\":{},\"fail\":{},\"r\":{},\"reads_after_end\":{}}}",
+                jsize(n), mr, fail, io_result_json(r), rd.reads_after_end
+            ));
+            nscripts += 1;
+            if fail {
+                nfaults += 1;
+            }
+        }
+    }
     rec.begin();
     rec.new_gen(0);
     rec.file(0, "missing", &tmp.join("does-not-exist"), 0, 0);
